@@ -401,4 +401,23 @@ impl Database {
             s.verif_quiesce().await;
         }
     }
+
+    /// Verification hook: the statically derived output column types of a statement, from the
+    /// same `TypeSchemaAnalysis` the executor builder allocates its output arrays from.
+    pub async fn verif_static_types(
+        &self,
+        sql: &str,
+        optimize: bool,
+    ) -> Result<Vec<crate::types::DataType>, Error> {
+        let plan = self.verif_plan(sql, optimize).await?;
+        let mut egraph = egg::EGraph::new(crate::planner::TypeSchemaAnalysis {
+            catalog: self.catalog.clone(),
+        });
+        let root = egraph.add_expr(&plan);
+        match &egraph[root].data.type_ {
+            Ok(crate::types::DataType::Struct(ts)) => Ok(ts.clone()),
+            Ok(t) => Ok(vec![t.clone()]),
+            Err(e) => Err(Error::Internal(format!("type error: {e}"))),
+        }
+    }
 }
